@@ -5,18 +5,25 @@ register(
     "C06",
     lean_modules=["GtModel.Model.Render", "GtModel.Props.C06"],
     theorems=[
+        "GtModel.C06.project_from",
+        "GtModel.C06.project_to",
+        "GtModel.C06.marks_iff",
+        "GtModel.C06.project_from_docs",
+        "GtModel.C06.project_to_docs",
+        "GtModel.C06.marks_iff_docs",
+        "GtModel.C06.script_wellformed",
         "GtModel.C06.project_from_wf",
         "GtModel.C06.project_to_wf",
         "GtModel.C06.projection_is_value",
-        "GtModel.C06.project_from_partial",
-        "GtModel.C06.project_to_partial",
         "GtModel.C06.project_from_checked",
         "GtModel.C06.project_to_checked",
-        "GtModel.Render.wfB_sound",
         "GtModel.C06.printJson_toks",
         "GtModel.C06.no_marks_of_zero_cost_leaf",
         "GtModel.C06.marks_of_change",
-        "GtModel.C06.marks_iff_partial",
+        "GtModel.Render.wfB_sound",
+        "GtModel.Render.wf_edits",
+        "GtModel.Render.positive_cost_shows",
+        "GtModel.Render.zero_cost_is_match",
         "GtModel.Render.render_spec",
         "GtModel.Render.main",
         "GtModel.Render.seq_lemma",
@@ -24,25 +31,23 @@ register(
         "GtModel.Render.proj_strOut",
         "GtModel.Render.tokens_quote",
         "GtModel.Render.closedT_jsonText",
+        "GtModel.build_litOK",
     ],
     streams=["render"],
     assumptions=[
-        "ScriptWellFormed f t (edits o orc [] [] f t): the engine's script is a well-formed edit in the sense of "
-        "Render.WF (every sub-edit names existing children, the sub-edits of a list keep every element of either list "
-        "in order, those of a mapping keep every pair of either mapping, a zero-cost Match relates node-equal nodes, "
-        "the key edit of a pair costs 0 only for equal keys); the index part is C01 script_accounts, the equality part "
-        "C02 zero_cost_iff_eq; not yet derived in the form WF uses",
-        "float leaves carry Python's repr as an opaque token that consists of literal characters (litOK); "
-        "non-finite floats are not JSON",
-        "marks_iff_partial: C02 zero_cost_iff_eq and 'an edit of positive cost renders a marked character' are hypotheses",
+        "objects of the compared documents have distinct keys (Doc.distinctKeys / Tree.KeysDistinct; what json parsers "
+        "deliver); the _checked variants need no such hypothesis but the executable script check instead",
+        "float leaves carry Python's repr as an opaque, non-empty token that consists of literal characters "
+        "(litOK / Doc.floatsOK; evaluated by the driver on every stream case); non-finite floats are not JSON",
+        "the projections equal the documents up to ValSim: order of the members of objects (pairs are printed in edit "
+        "order) and node-equal subtrees; lists are exact",
     ],
     trusted=[
-        "render stream: model output (characters, marks, script) == real JSONFormatter output after mark recovery and "
-        "whitespace canonicalisation on every generated case",
+        "render stream: model output (characters, marks, script, script check) == real JSONFormatter output after mark "
+        "recovery and whitespace canonicalisation on every generated case",
         "mark recovery from the ANSI/combining-mark output (harness/streams/render.py: recover, drop_ws)",
         "the assignment solver's answers enter as an oracle; theorems hold for every oracle",
+        "L2 proofs C01 (index accounting), C02 (zero_cost_iff_eq, eq_iff_dataEq), C03 (reported_eq_sum)",
     ],
-    partial="(1),(2) are proved for every well-formed script; that the engine's script is well formed is a hypothesis "
-            "(script_wellformed). (3) is proved from two named L2 hypotheses. The monitor checks the full statement "
-            "on the real output of every case.",
+    partial="",
 )
